@@ -18,7 +18,9 @@ RULE = ("GFA1 graphs (and GFA2 graphs for chain detection) built from planted st
         "and rotation; after merge_linear_paths(): one new segment per chain with the model's spelled sequence "
         "(own reverse-complement table, successors trimmed by the overlap) and LN, exactly the chain's outward "
         "links re-attached to the right ends, members gone, other lines unchanged, components preserved, closure/"
-        "symmetry invariants, second merge a no-op. non-trivial = a chain of >= 3 members with >= 1 reversed "
+        "symmetry invariants, second merge a no-op; 35% of the cases pass options that must not matter (merged_name='short', "
+        "cut_counts, enable_tracking); part 'cli': bin/gfapy-mergelinear (--vlevel 0..3, --short) as a subprocess, its printed "
+        "graph judged by the same oracle. non-trivial = a chain of >= 3 members with >= 1 reversed "
         "member and >= 1 branching junction in the graph; distinct by hash")
 ASSUMPTIONS = [
     "overlaps are '*' or a single run of M (the merge is documented for match-only overlaps); overlap shorter than both segments",
@@ -313,11 +315,28 @@ def prop(case):
     comps_before = M.ModelDoc.from_doc({"version": doc["version"], "lines": doc["lines"]}).components()
     V = doc["version"]
     before_other = Counter(O.line_key(l, V) for l in g.lines if l.record_type in ("#", "H"))
-    try:
-        g.merge_linear_paths()
-    except Exception as e:
-        raise Violation("merge-raised", "merge_linear_paths raised %s: %s\n%s" % (type(e).__name__, str(e)[:300], text),
-                        "%s/%s" % (type(e).__name__, "hairpin" if any(graph.ends[id(l)][0] == graph.ends[id(l)][1] for l in graph.links) else "-"))
+    mopts = dict(case.get("merge_opts") or {})
+    if case.get("cli"):
+        from .. import cli
+        args = ["x.gfa", "--no-progress", "--vlevel", str(case.get("vlevel", 1))] + (["--short"] if mopts.get("merged_name") == "short" else [])
+        try:
+            rcode, out, err = cli.run_script("gfapy-mergelinear", args, {"x.gfa": text + "\n"})
+        except Exception as e:
+            if type(e).__name__ == "TimeoutExpired":
+                raise Violation("cli-hang", "gfapy-mergelinear did not terminate\n%s" % text)
+            raise
+        if rcode != 0 or "Traceback" in err:
+            raise Violation("cli-failed", "gfapy-mergelinear %s: exit status %s\n%s\n%s" % (args[1:], rcode, err[-1200:], text), (err.strip().split("\n") or [""])[-1].split(":")[0][:40])
+        try:
+            g = gfapy.Gfa(out, version=V, vlevel=1)
+        except Exception as e:
+            raise Violation("cli-output", "the output of gfapy-mergelinear does not load: %s: %s\n%s\n-- output --\n%s" % (type(e).__name__, str(e)[:300], text, out), type(e).__name__)
+    else:
+        try:
+            g.merge_linear_paths(**mopts)
+        except Exception as e:
+            raise Violation("merge-raised", "merge_linear_paths(%r) raised %s: %s\n%s" % (mopts, type(e).__name__, str(e)[:300], text),
+                            "%s/%s" % (type(e).__name__, "hairpin" if any(graph.ends[id(l)][0] == graph.ends[id(l)][1] for l in graph.links) else "-"))
     after_text = str(g)
     probs = O.invariants(g)
     if probs:
@@ -422,7 +441,7 @@ def prop(case):
             type(e).__name__, str(e)[:300], text, after_text), type(e).__name__)
     # idempotence
     try:
-        g.merge_linear_paths()
+        g.merge_linear_paths(**mopts)
     except Exception as e:
         raise Violation("second-merge-raised", "%s: %s\n%s" % (type(e).__name__, str(e)[:200], after_text), type(e).__name__)
     if str(g) != after_text:
@@ -430,7 +449,8 @@ def prop(case):
     branching = any(len(v) >= 2 for v in graph.inc.values())
     nt = any(len(ch) >= 3 and any(o == "-" for _s, o, _l in ch) for ch in chains) and branching
     return {"nt": nt, "n_chains": min(len(chains), 3), "circular": any(ch[-1][2] is not None for ch in chains),
-            "hairpin": any(graph.ends[id(l)][0] == graph.ends[id(l)][1] for l in graph.links), "version": V}
+            "hairpin": any(graph.ends[id(l)][0] == graph.ends[id(l)][1] for l in graph.links), "version": V,
+            "merge_opts": ",".join(sorted(mopts)) or None, "cli": bool(case.get("cli"))}
 
 
 def build_chain_graph(r):
@@ -527,19 +547,46 @@ def to_gfa2_graph(r, doc):
     return {"version": "gfa2", "lines": lines}
 
 
+def _merge_opts(r):
+    """Options of merge_linear_paths() that must not change what the statement promises (name style, count
+    arithmetic, origin tracking)."""
+    if not gen.chance(r, 0.35):
+        return None
+    o = {}
+    if gen.chance(r, 0.5):
+        o["merged_name"] = "short"
+    if gen.chance(r, 0.35):
+        o["cut_counts"] = True
+    if gen.chance(r, 0.35):
+        o["enable_tracking"] = True
+    return o or None
+
+
 @st.composite
 def st_case(draw):
     r = draw(st.randoms(use_true_random=False))
-    return {"doc": build_chain_graph(r), "vlevel": gen.choice(r, [1, 1, 2, 3])}
+    return {"doc": build_chain_graph(r), "vlevel": gen.choice(r, [1, 1, 2, 3]), "merge_opts": _merge_opts(r)}
 
 
 @st.composite
 def st_case2(draw):
     r = draw(st.randoms(use_true_random=False))
-    return {"doc": to_gfa2_graph(r, build_chain_graph(r)), "vlevel": gen.choice(r, [1, 1, 2, 3])}
+    return {"doc": to_gfa2_graph(r, build_chain_graph(r)), "vlevel": gen.choice(r, [1, 1, 2, 3]), "merge_opts": _merge_opts(r)}
+
+
+@st.composite
+def st_case_cli(draw):
+    r = draw(st.randoms(use_true_random=False))
+    doc = build_chain_graph(r)
+    if gen.chance(r, 0.35):
+        doc = to_gfa2_graph(r, doc)
+    return {"doc": doc, "vlevel": gen.choice(r, [0, 0, 1, 2, 3]), "cli": True,
+            "merge_opts": {"merged_name": "short"} if gen.chance(r, 0.4) else None}
 
 
 def parts(tier):
     q = tier == "quick"
     return [Part("gfa1", prop, strategy=st_case(), n=300 if q else 1500, quick_shards=2),
-            Part("gfa2", prop, strategy=st_case2(), n=250 if q else 1200, quick_shards=2)]
+            Part("gfa2", prop, strategy=st_case2(), n=250 if q else 1200, quick_shards=2),
+            Part("cli", prop, strategy=st_case_cli(), n=30 if q else 100, quick_shards=3,
+                 note="bin/gfapy-mergelinear as a subprocess; its printed graph is judged like the result of merge_linear_paths()")]
